@@ -45,7 +45,8 @@ NS1 = NS("a,b,d/,d/a", ("a", "b", "d/a"), ("d",))
 NS2 = NS("a,b,d/,e/,d/a,e/a", ("a", "b", "d/a", "e/a"), ("d", "e"))
 NS3 = NS("a,d/,d/a,d/e/,d/e/a", ("a", "d/a", "d/e/a"), ("d", "d/e"), contents=(b"x\n",))
 NS1F = NS("a,b,d/,d/a+kindflip", ("a", "b", "d/a"), ("d",), flip=True)
-NAMESPACES = {n.name: n for n in (NS1, NS2, NS3, NS1F)}
+NS4 = NS("a,d/,d/a,e/,e/d/,e/d/a", ("a", "d/a", "e/d/a"), ("d", "e", "e/d"), contents=(b"x\n",))
+NAMESPACES = {n.name: n for n in (NS1, NS2, NS3, NS1F, NS4)}
 
 
 def parent(p):
